@@ -1,13 +1,19 @@
 package main
 
 import (
+	"bytes"
 	"context"
 	"crypto"
+	"crypto/rand"
 	"crypto/x509"
 	"encoding/asn1"
 	"encoding/hex"
+	"encoding/pem"
 	"fmt"
 	"io"
+	"math/big"
+	"os"
+	"path/filepath"
 	"strings"
 	"time"
 
@@ -15,6 +21,7 @@ import (
 	"github.com/sassoftware/relic/v8/lib/pkcs9"
 
 	"verif/gen/dergen"
+	"verif/relicx"
 )
 
 // The path every relic signer takes: pkcs7.NewBuilder -> Sign ->
@@ -31,10 +38,14 @@ type builtCase struct {
 	TSA     string         // dergen | ossl:<name>
 	Token   *dergen.Params `json:",omitempty"` // dergen token shape (nil = base)
 	After   string         // "" | detach (jar/csblob/xar: Detach + Marshal after TimestampAndMarshal)
+	Chain   string         `json:",omitempty"` // "" (leaf, intermediate, root) | cross (plus the same intermediate certified by a second root: same name, key and key identifier) | repeated (the leaf listed twice, as a bundle that repeats it does)
 }
 
 func (c builtCase) String() string {
 	s := fmt.Sprintf("key=%s hash=%s content=%s attrs=%s stamp=%s tsa=%s after=%s", c.Key, c.Hash, c.Content, c.Attrs, c.Stamp, c.TSA, c.After)
+	if c.Chain != "" {
+		s += " chain=" + c.Chain
+	}
 	if c.Token != nil {
 		s += " token{" + c.Token.String() + "}"
 	}
@@ -111,6 +122,81 @@ func chainOf(k *dergen.Key) []*x509.Certificate {
 	return []*x509.Certificate{k.Leaf, fx.Inter, fx.Root}
 }
 
+var crossInter *x509.Certificate
+
+// crossCertified: the fixture intermediate certified a second time, by the
+// other fixture root - same subject, same key, same subject key identifier,
+// different issuer and serial (what a CA migration leaves in a chain file).
+func crossCertified() *x509.Certificate {
+	if crossInter != nil {
+		return crossInter
+	}
+	readPEM := func(name, typ string) []byte {
+		blob, err := os.ReadFile(filepath.Join(relicx.KeyDir, name))
+		if err != nil {
+			panic(err)
+		}
+		for {
+			var b *pem.Block
+			b, blob = pem.Decode(blob)
+			if b == nil {
+				panic("no " + typ + " in " + name)
+			}
+			if strings.Contains(b.Type, typ) {
+				return b.Bytes
+			}
+		}
+	}
+	other, err := x509.ParseCertificate(readPEM("otherroot.crt", "CERTIFICATE"))
+	if err != nil {
+		panic(err)
+	}
+	keyDER := readPEM("otherroot.key", "PRIVATE KEY")
+	var signer crypto.Signer
+	if k, err := x509.ParsePKCS8PrivateKey(keyDER); err == nil {
+		signer = k.(crypto.Signer)
+	} else if k, err := x509.ParsePKCS1PrivateKey(keyDER); err == nil {
+		signer = k
+	} else if k, err := x509.ParseECPrivateKey(keyDER); err == nil {
+		signer = k
+	} else {
+		panic("otherroot.key: unsupported key encoding")
+	}
+	tmpl := &x509.Certificate{
+		SerialNumber:          big.NewInt(0x16c0ffee),
+		Subject:               fx.Inter.Subject,
+		NotBefore:             fx.Inter.NotBefore,
+		NotAfter:              fx.Inter.NotAfter,
+		KeyUsage:              fx.Inter.KeyUsage,
+		ExtKeyUsage:           fx.Inter.ExtKeyUsage,
+		BasicConstraintsValid: true,
+		IsCA:                  true,
+		SubjectKeyId:          fx.Inter.SubjectKeyId,
+	}
+	der, err := x509.CreateCertificate(rand.Reader, tmpl, other, fx.Inter.PublicKey, signer)
+	if err != nil {
+		panic(err)
+	}
+	crossInter, err = x509.ParseCertificate(der)
+	if err != nil {
+		panic(err)
+	}
+	if !bytes.Equal(crossInter.SubjectKeyId, fx.Inter.SubjectKeyId) || bytes.Equal(crossInter.Raw, fx.Inter.Raw) {
+		panic("cross certificate does not share the key identifier")
+	}
+	return crossInter
+}
+
+func (c builtCase) chain(k *dergen.Key) []*x509.Certificate {
+	switch c.Chain {
+	case "cross":
+		return []*x509.Certificate{k.Leaf, fx.Inter, crossCertified(), fx.Root}
+	case "repeated":
+		return []*x509.Certificate{k.Leaf, fx.Inter, k.Leaf, fx.Root}
+	}
+	return chainOf(k)
+}
+
 func runBuilt(c builtCase) {
 	in := &input{Src: "built", Label: c.String(), Replay: c, RelicBuilt: true}
 	k := fx.Keys[c.Key]
@@ -126,7 +212,7 @@ func runBuilt(c builtCase) {
 	var psd *pkcs7.ContentInfoSignedData
 	var ext []byte
 	err, pan := guard(in, "pkcs7.SignatureBuilder.Sign", func() error {
-		sb := pkcs7.NewBuilder(k.Signer, chainOf(k), h)
+		sb := pkcs7.NewBuilder(k.Signer, c.chain(k), h)
 		switch c.Content {
 		case "data":
 			if err := sb.SetContentData(dergen.DataContent); err != nil {
@@ -233,6 +319,34 @@ func runBuilt(c builtCase) {
 	}
 	if c.After == "detach" && l.HasEContent {
 		violation("detach:content-still-present", fmt.Sprintf("built %s", c), in.replay("detach", nil))
+	}
+	// certificates are copied: every certificate handed to the builder is in the
+	// emitted set (a relying party may need any of them to build its path), the
+	// signer's first, and nothing else is
+	{
+		given := c.chain(k)
+		have := map[string]int{}
+		for _, r := range l.CertList {
+			have[string(r.Of(blob))]++
+		}
+		for i, g := range given {
+			if have[string(g.Raw)] == 0 {
+				violation("certificate-dropped:built:"+c.Chain, fmt.Sprintf("built %s: certificate %d of the configured chain (%s, issued by %s) is not in the emitted SignedData (%d certificates emitted for %d configured)", c, i, g.Subject.CommonName, g.Issuer.CommonName, len(l.CertList), len(given)), in.replay("built", map[string]any{"output_hex": hex.EncodeToString(blob)}))
+				break
+			}
+		}
+		givenSet := map[string]bool{}
+		for _, g := range given {
+			givenSet[string(g.Raw)] = true
+		}
+		for raw := range have {
+			if !givenSet[raw] {
+				violation("certificate-added:built", fmt.Sprintf("built %s: the emitted SignedData carries a certificate that was not configured", c), in.replay("built", nil))
+			}
+		}
+		if len(l.CertList) > 0 && !bytes.Equal(l.CertList[0].Of(blob), k.Leaf.Raw) {
+			violation("leaf-not-first:built", fmt.Sprintf("built %s", c), in.replay("built", nil))
+		}
 	}
 	// the authority's token must be embedded byte-identically
 	if tsa != nil {
